@@ -291,10 +291,13 @@ func (p *Path) callSSA(caller *frame, pos token.Pos, fn *ssa.Function, args []Va
 			return p.poisonResult(fn, "opaque "+key)
 		}
 	}
+	// Always go through the package's build Once: testing fn.Blocks first races
+	// with another worker that is still inside Pkg.Build() (blocks exist but
+	// are unfinished).
+	if fn.Pkg != nil || fn.Synthetic == "" {
+		p.eng.buildFn(fn)
+	}
 	if fn.Blocks == nil {
-		if fn.Pkg != nil || fn.Synthetic == "" {
-			p.eng.buildFn(fn)
-		}
 		if fn.Blocks == nil {
 			if p.inInit > 0 {
 				return p.poisonResult(fn, "no body: "+name)
